@@ -91,6 +91,22 @@ func cells(thorough bool) []Cell {
 				methods = append(methods, "POST")
 			}
 
+			// in front of the metadata endpoint of a jwt authenticator, http_cache configured explicitly
+			for _, cch := range caches {
+				for _, cc := range []string{"", "max-age=0", "max-age=5", "no-store"} {
+					for _, ex := range []string{"", "+5s"} {
+						for _, dttl := range []int{0, -1, 30} {
+							hc := &HTTPCell{CacheControl: cc, Expires: ex, Method: "GET", Through: "metadata-endpoint", DefaultTTL: dttl}
+							if dttl < 0 {
+								hc.DefaultTTL, hc.TTLOmitted = 0, true
+							}
+
+							out = append(out, Cell{Mech: mech, Cache: cch, OverMode: "none", HTTP: hc})
+						}
+					}
+				}
+			}
+
 			for _, cch := range caches {
 				for _, method := range methods {
 					for _, cc := range []string{"", "max-age=0", "max-age=5", "no-store", "no-cache", "private, max-age=5"} {
